@@ -45,7 +45,7 @@ ASSUMPTIONS = [
 ]
 TIERS = {
     "quick": {"shards": 16, "cases": 150, "timeout": 600},
-    "thorough": {"shards": 16, "cases": 4000, "timeout": 7200},
+    "thorough": {"shards": 16, "cases": 24000, "timeout": 7200},
 }
 FLOORS = {
     "quick": {"programs": 1200, "sizes_compared": 600, "buffer_pairs_checked": 5000, "uses_observed": 15000, "distinct_nontrivial": 200, "views_used_later": 150},
